@@ -118,7 +118,8 @@ Proof.
         destruct (parse_header a p0 fake_head_431) as [p1 st] eqn:Ep.
         destruct st; try discriminate. inversion H; subst. clear H.
         eapply sim_431; eauto.
-      * destruct (lstrip_by is_bytes_ws (firstn i (header_plus p ++ data))) as [|c0 hp] eqn:El.
+      * (* whatever the stripping of leading blank lines / whitespace is: only the case split matters *)
+        match type of H with context[match ?hpx with [] => _ | _ :: _ => _ end] => destruct hpx as [|c0 hp] eqn:El end.
         -- (* empty *)
            inversion H; subst. clear H. exists CE.EvHeadEmpty. eexists.
            unfold CE.astep. rewrite Fc, Fb. split; [reflexivity|]. unfold flags_eq. simpl.
@@ -666,7 +667,7 @@ Proof.
     + destruct (max_request_header_size a <=? N.of_nat i).
       { destruct (parse_header a _ fake_head_431) as [p1 st]. destruct st; try discriminate.
         inversion H; subst. simpl in Ec'. discriminate. }
-      destruct (lstrip_by is_bytes_ws (firstn i (header_plus p ++ data))) as [|c0 hp].
+      match type of H with context[match ?hpx with [] => _ | _ :: _ => _ end] => destruct hpx as [|c0 hp] end.
       { inversion H; subst. simpl in Ec'. discriminate. }
       destruct (parse_header a _ (c0 :: hp)) as [p1 st]. destruct st; try discriminate.
       * inversion H; subst. clear H.
